@@ -20,7 +20,7 @@ from sim.kernel import HarnessError
 PROPERTY = "C18"
 
 TIERS = {
-    "quick": {"runs": 480, "wall_cap_s": 75, "det_seeds": 16, "fresh_every": 120},
+    "quick": {"runs": 380, "wall_cap_s": 60, "det_seeds": 16, "fresh_every": 120},
     "thorough": {"runs": 24000, "wall_cap_s": 800, "det_seeds": 128, "det_extra_workers": 4, "fresh_every": 40},
 }
 
